@@ -35,6 +35,10 @@ func VH_C08_Alias() {
 	if numeric {
 		k = 1 // arithmetic opcodes only read their operands through the number decoder
 	}
+	switch op {
+	case bscript.OpBIN2NUM, bscript.OpNUM2BIN, bscript.OpSPLIT, bscript.OpCAT, bscript.OpINVERT, bscript.OpSIZE, bscript.OpLSHIFT, bscript.OpRSHIFT:
+		k = vparam("KB", k) // byte-string transformers: longer items (zero-padded / sign-carrying encodings need >= 3 bytes)
+	}
 	flags := vflags()
 	th := &thread{flags: flags, cfg: &beforeGenesisConfig{}, elseStack: &nopBoolStack{}, debug: &nopDebugger{}, state: &nopStateHandler{}}
 	if flags&(1<<14) != 0 { // UTXOAfterGenesis
